@@ -409,8 +409,21 @@ pub async fn queuer_step(sticky: bool, busy: &[usize], deque: &[usize], queued: 
         };
         if op == "dispatch" {
             let _ = state.dispatch(Job { key: 6, msg: 100, options: JobOptions::default(), accepted: None });
+        } else if let Some(w) = op.strip_prefix("finished:") {
+            let _ = state.worker_finished_job(w.parse().unwrap(), 5);
+        } else if let Some(n) = op.strip_prefix("resize:") {
+            let (me, _mh) = Actor::spawn(None, ProbeFactoryActor, ()).await.unwrap();
+            let _ = state.resize_pool(&me, n.parse().unwrap()).await;
+            me.stop(None);
+        } else if let Some(w) = op.strip_prefix("death:") {
+            let (me, _mh) = Actor::spawn(None, ProbeFactoryActor, ()).await.unwrap();
+            let wid: usize = w.parse().unwrap();
+            let cell = state.pool[&wid].actor.get_cell();
+            let f: Factory<u64, u64, (), ProbeWorker, R, DefaultQueue<u64, u64>> = Factory::default();
+            let _ = f.handle_supervisor_evt(me.clone(), SupervisionEvent::ActorFailed(cell, "verif".into()), &mut state).await;
+            me.stop(None);
         } else {
-            let _ = state.worker_finished_job(op.strip_prefix("finished:").unwrap().parse().unwrap(), 5);
+            panic!("unknown op {op}");
         }
         let (dq, fl) = state.router.get_deque();
         let mut idle: Vec<usize> = state.pool.iter().filter(|(_, w)| w.is_available() && !w.is_draining).map(|(k, _)| *k).collect();
